@@ -64,6 +64,9 @@ pub const HOST_SPELLINGS: &[&str] = &[":host", ":/*c*/host", ":h\\6f st", ":\\68
 thread_local! {
     /// how the `:host` selectors of the sheet being built are spelled (index into HOST_SPELLINGS)
     pub static HOST_SPELLING: std::cell::Cell<usize> = std::cell::Cell::new(0);
+    /// what stands in front of every top-level rule of the sheet being built: 0 nothing, 1 `<!--`, 2 `-->` (CSS ignores both between
+    /// the rules of a style sheet: the rule behind them is a rule like any other; the tokens stay in the normal output)
+    pub static TOP_SEPARATOR: std::cell::Cell<usize> = std::cell::Cell::new(0);
 }
 
 fn push_selector(sh: &mut Sheet, leaf: Leaf) {
@@ -146,6 +149,14 @@ pub struct Built {
 
 fn build_rec(nodes: &[Node], chain: &mut Vec<usize>, b: &mut Built, opts: &Opts, next_id: &mut u32) {
     for n in nodes {
+        if chain.is_empty() {
+            let sep = TOP_SEPARATOR.with(|x| x.get());
+            if sep != 0 {
+                let t = if sep == 1 { "<!--" } else { "-->" };
+                b.input.plain(t, "separator");
+                b.normal.plain(t, "separator");
+            }
+        }
         match n {
             Node::Rule(leaf) => {
                 let id = *next_id;
@@ -364,10 +375,18 @@ pub fn explore(thorough: bool, result_path: &str) {
     // space 4: the other spellings of `:host`: every pair of leaves (bare and inside one wrapper), every option set
     let lens4: &[u32] = &[2];
     let n4 = lists(0, lens4, LEAVES.len() as u64) * 2 * (HOST_SPELLINGS.len() as u64 - 1);
-    let total = n1 * no + n2 * 3 + n3 * no + n4 * no;
+    // space 5: `<!--` / `-->` in front of every top-level rule: every pair of leaves, every option set
+    let n5 = lists(0, lens4, LEAVES.len() as u64) * 2;
+    let total = n1 * no + n2 * 3 + n3 * no + n4 * no + n5 * no;
     let rep = par_run(total, threads(), |i, rep| {
         let mut spelling = 0usize;
-        let (space, nodes, o) = if i < n1 * no {
+        let mut separator = 0usize;
+        let (space, nodes, o) = if i >= n1 * no + n2 * 3 + n3 * no + n4 * no {
+            let k = i - (n1 * no + n2 * 3 + n3 * no + n4 * no);
+            let j = k / no;
+            separator = 1 + (j % 2) as usize;
+            ("top-level-separators", unrank_list(j / 2, 0, lens4, LEAVES.len() as u64), &opts[(k % no) as usize])
+        } else if i < n1 * no {
             ("all-leaves:depth<=1:len<=2", unrank_list(i / no, 1, lens1, LEAVES.len() as u64), &opts[(i % no) as usize])
         } else if i < n1 * no + n2 * 3 {
             let k = i - n1 * no;
@@ -387,6 +406,7 @@ pub fn explore(thorough: bool, result_path: &str) {
             ("host-spellings", if j % 2 == 0 { flat } else { vec![Node::Wrap(0, flat)] }, &opts[(k % no) as usize])
         };
         HOST_SPELLING.with(|x| x.set(spelling));
+        TOP_SEPARATOR.with(|x| x.set(separator));
         rep.states += 1;
         rep.transitions += 1;
         rep.evaluations += 1;
@@ -406,7 +426,7 @@ pub fn explore(thorough: bool, result_path: &str) {
                     rep.violation(Violation {
                         fingerprint: format!("C17|{}|convert={}", kind, o.convert_host),
                         what: format!("{} for rule tree [{}] options {}: {}", kind, describe(&nodes), o.to_json(), detail.chars().take(500).collect::<String>()),
-                        replay: json!({"engine": "c17", "tree": tree_json(&nodes), "options": o.to_json(), "host_spelling": spelling, "input": build(&nodes, o).input.text()}),
+                        replay: json!({"engine": "c17", "tree": tree_json(&nodes), "options": o.to_json(), "host_spelling": spelling, "top_separator": separator, "input": build(&nodes, o).input.text()}),
                     });
                 }
             }
@@ -455,6 +475,7 @@ pub fn replay(v: &Value) -> Value {
     let nodes = tree_from(&v["tree"]);
     let o = Opts::from_json(&v["options"]);
     HOST_SPELLING.with(|x| x.set(v["host_spelling"].as_u64().unwrap_or(0) as usize));
+    TOP_SEPARATOR.with(|x| x.set(v["top_separator"].as_u64().unwrap_or(0) as usize));
     let a = check_tree(&nodes, &o);
     let b = check_tree(&nodes, &o);
     let fmt = |r: &Result<Vec<(String, String)>, String>| match r {
